@@ -17,25 +17,35 @@ func RuleBCD(r *Report, p *Program) {
 		r.Fatal("B1", "bcd", "Encode/Decode not found")
 		return
 	}
+	// Both functions are walked for exactly one input symbol with finite-domain refinement (finite.go): every
+	// path ends with the exact set of symbol values that take it, whatever idiom (switch, range test and
+	// arithmetic, mask, shift, lookup table) the code uses; the emitted nibble / characters are expressions of
+	// that symbol and are tabulated over the set.
 	// ---- Encode, exactly one symbol
 	w := NewWalker(p)
 	w.LoopFuel = 3
-	w.Inline = func(f *ssa.Function, d int) bool { return false }
+	w.Finite = true
+	w.Inline = inlineHelpers([]*ssa.Package{pkgOf(enc)}, func(f *ssa.Function) bool { return f.Object() != nil && f.Object().Exported() })
 	w.AssumeBool = map[string]bool{"more(s)#1": true, "more(s)#2": false}
+	w.Assume = map[string]IntervalSet{"len(s)": {{1, 1}}}
 	bad := ""
-	digits := 0
-	covered := IntervalSet{}
+	digitSeen := map[int64]bool{}
 	for _, pa := range w.Walk(enc, []*Term{{Op: "param", Name: "s", Typ: enc.Params[0].Type()}}, nil) {
 		if pa.Outcome != "return" {
 			bad = "path ends in " + pa.Outcome + ": " + pa.Detail
 			continue
 		}
-		reg, has := pa.State.Ints["elem(s)@1"]
-		if !has {
+		leaf := ""
+		for _, k := range []string{"elem(s)@1", "s[0]"} {
+			if _, has := pa.State.Ints[k]; has {
+				leaf = k
+			}
+		}
+		if leaf == "" {
 			bad = "the symbol is never examined"
 			continue
 		}
-		covered = append(covered, reg...)
+		reg := pa.State.Ints[leaf]
 		en := errNilness(pa, pa.Results[1])
 		var added *Term
 		for _, e := range pa.Events {
@@ -43,89 +53,117 @@ func RuleBCD(r *Report, p *Program) {
 				added = e.Args[1].Args[1]
 			}
 		}
-		single := len(reg) == 1 && reg[0].Lo == reg[0].Hi
-		if single && reg[0].Lo >= '0' && reg[0].Lo <= '9' {
-			want := reg[0].Lo - '0'
-			v, isc := int64(-1), false
-			if added != nil {
-				v, isc = added.Int64()
-			}
-			if en != 1 || !isc || v != want {
-				bad = fmt.Sprintf("rune %q encodes to %v (error nil=%d), expected nibble %d", rune(reg[0].Lo), added, en, want)
-			} else {
-				digits++
-			}
-			continue
-		}
 		inDigits := reg.Intersect(IntervalSet{{'0', '9'}})
-		if inDigits.Empty() {
-			if en != 0 || !pa.Results[0].IsNilConst() {
-				bad = fmt.Sprintf("runes %s are accepted by Encode", reg.String())
+		switch {
+		case en == 0:
+			if !inDigits.Empty() {
+				bad = fmt.Sprintf("the digits %s are rejected by Encode", inDigits.String())
 			}
-			continue
+			if !pa.Results[0].IsNilConst() {
+				bad = "Encode returns a value together with an error"
+			}
+		case en == 1:
+			if !inDigits.Equal(reg) {
+				bad = fmt.Sprintf("runes %s are accepted by Encode", reg.Intersect(complement(IntervalSet{{'0', '9'}})).String())
+				continue
+			}
+			if added == nil {
+				bad = "no nibble is merged into the output for an accepted symbol"
+				continue
+			}
+			for _, v := range valuesOf(reg) {
+				n, ok := evalAt(added, leaf, v)
+				if !ok {
+					bad = "the nibble stored for an accepted symbol is not an expression of that symbol: " + cut(added.String(), 80)
+					break
+				}
+				if n != v-'0' {
+					bad = fmt.Sprintf("rune %q encodes to nibble %d, expected %d", rune(v), n, v-'0')
+					break
+				}
+				digitSeen[v] = true
+			}
+		default:
+			bad = "error result of unknown nilness"
 		}
-		// a range idiom: accepted only when the region is inside '0'..'9' and the nibble is rune-'0'
-		if inDigits.Equal(reg) && en == 1 && added != nil && strings.Contains(added.String(), "elem(s)@1") && strings.Contains(added.String(), "48") {
-			digits += int(reg[0].Hi - reg[0].Lo + 1)
-			continue
-		}
-		bad = fmt.Sprintf("runes %s straddle the digit range on one path", reg.String())
 	}
-	if bad == "" && digits != 10 {
-		bad = fmt.Sprintf("%d digit symbols are mapped, expected 10", digits)
+	if bad == "" && len(digitSeen) != 10 {
+		bad = fmt.Sprintf("%d digit symbols are mapped, expected 10", len(digitSeen))
 	}
 	r.Check(bad == "", "B1", "bcd.Encode", p.Pos(enc.Pos()), "10 digits mapped, all other runes rejected", bad)
 
 	// ---- Decode, exactly one byte
 	w2 := NewWalker(p)
 	w2.LoopFuel = 3
-	w2.Inline = func(f *ssa.Function, d int) bool { return false }
+	w2.Finite = true
+	w2.Inline = inlineHelpers([]*ssa.Package{pkgOf(dec)}, func(f *ssa.Function) bool { return f.Object() != nil && f.Object().Exported() })
 	w2.Assume = map[string]IntervalSet{"len(b)": {{1, 1}}}
+	w2.AssumeBool = map[string]bool{"more(b)#1": true, "more(b)#2": false}
 	bad = ""
-	pairs := 0
+	okBytes := map[int64]bool{}
+	covered := map[int64]bool{}
 	paths := w2.Walk(dec, []*Term{{Op: "param", Name: "b", Typ: dec.Params[0].Type()}}, nil)
 	for _, pa := range paths {
 		if pa.Outcome != "return" {
 			bad = "path ends in " + pa.Outcome + ": " + pa.Detail
 			continue
 		}
-		hi, hasHi := regionOf(pa, "b[0]", 240)
-		lo, hasLo := regionOf(pa, "b[0]", 15)
+		leaf := ""
+		for _, k := range []string{"b[0]", "elem(b)@1"} {
+			if _, has := pa.State.Ints[k]; has {
+				leaf = k
+			}
+		}
+		reg, has := pa.State.Ints[leaf]
+		if !has {
+			reg = IntervalSet{{0, 255}}
+			leaf = "b[0]"
+		}
 		en := errNilness(pa, pa.Results[1])
-		var writes []int64
+		var writes []*Term
 		for _, e := range pa.Events {
 			if e.Kind == "call" && (strings.HasSuffix(e.Name, ".WriteRune") || strings.HasSuffix(e.Name, ".WriteByte")) && len(e.Args) == 2 {
-				if v, ok := e.Args[1].Int64(); ok {
-					writes = append(writes, v)
-				} else {
-					writes = append(writes, -1)
+				writes = append(writes, e.Args[1])
+			}
+		}
+		for _, v := range valuesOf(reg) {
+			covered[v] = true
+			hi, lo := v>>4, v&15
+			valid := hi <= 9 && lo <= 9
+			switch {
+			case en == 1 && !valid:
+				bad = fmt.Sprintf("byte %#02x with a non-decimal nibble decodes without error", v)
+			case en == 0 && valid:
+				bad = fmt.Sprintf("byte %#02x (two decimal nibbles) is rejected", v)
+			case en == 1:
+				if len(writes) != 2 {
+					bad = fmt.Sprintf("a decoded byte appends %d characters through the string builder, expected 2", len(writes))
+					break
 				}
+				c0, ok0 := evalAt(writes[0], leaf, v)
+				c1, ok1 := evalAt(writes[1], leaf, v)
+				if !ok0 || !ok1 {
+					bad = "an emitted character is not an expression of the decoded byte: " + cut(writes[0].String(), 60)
+				} else if c0 != '0'+hi || c1 != '0'+lo {
+					bad = fmt.Sprintf("byte %#02x decodes to %q%q, expected %q%q (high nibble first)", v, rune(c0), rune(c1), rune('0'+hi), rune('0'+lo))
+				} else {
+					okBytes[v] = true
+				}
+			case en == -1:
+				bad = "error result of unknown nilness"
 			}
-		}
-		hiDigit := hasHi && len(hi) == 1 && hi[0].Lo == hi[0].Hi && hi[0].Lo%16 == 0 && hi[0].Lo/16 <= 9
-		loDigit := hasLo && len(lo) == 1 && lo[0].Lo == lo[0].Hi && lo[0].Lo <= 9
-		switch {
-		case hiDigit && loDigit:
-			if en != 1 || len(writes) != 2 || writes[0] != '0'+hi[0].Lo/16 || writes[1] != '0'+lo[0].Lo {
-				bad = fmt.Sprintf("byte with nibbles %d,%d decodes to %v (error nil=%d)", hi[0].Lo/16, lo[0].Lo, writes, en)
-			} else {
-				pairs++
-			}
-		case hasHi && !hiDigit && hi.Intersect(multiples16()).Empty() == false && hi.Intersect(IntervalSet{{0, 0x9f}}).Intersect(multiples16()).Empty():
-			if en != 0 {
-				bad = "a high nibble above 9 is accepted"
-			}
-		default:
-			if en != 0 {
-				// a success path must have decided both nibbles as digits
-				bad = fmt.Sprintf("decode succeeds under [%s] without both nibbles being decimal", cut(pa.State.Describe(), 120))
+			if bad != "" {
+				break
 			}
 		}
 	}
-	if bad == "" && pairs != 100 {
-		bad = fmt.Sprintf("%d (high,low) digit pairs decode, expected 100", pairs)
+	if bad == "" && len(covered) != 256 {
+		bad = fmt.Sprintf("the paths cover %d of the 256 byte values", len(covered))
 	}
-	r.Check(bad == "", "B2", "bcd.Decode", p.Pos(dec.Pos()), fmt.Sprintf("%d paths, 100 digit pairs in high-then-low order, everything else rejected", len(paths)), bad)
+	if bad == "" && len(okBytes) != 100 {
+		bad = fmt.Sprintf("%d byte values decode, expected 100", len(okBytes))
+	}
+	r.Check(bad == "", "B2", "bcd.Decode", p.Pos(dec.Pos()), fmt.Sprintf("%d paths, 100 digit pairs in high-then-low order, the other 156 byte values rejected", len(paths)), bad)
 }
 
 func multiples16() IntervalSet {
